@@ -152,12 +152,13 @@ pub struct NatWorker {
     pub pinned_unimplemented: std::collections::BTreeSet<String>,
 }
 
-const EMU_REGIONS: [(Region, u64, u32); 5] = [
+const EMU_REGIONS: [(Region, u64, u32); 6] = [
     (Region::Code, CODE, 5),
     (Region::Rw, RW, 3),
     (Region::Ro, RO, 1),
     (Region::None, NONE, 0),
     (Region::Stack, STACK, 3),
+    (Region::Hi, HI, 3),
 ];
 
 impl NatWorker {
@@ -261,6 +262,7 @@ impl NatWorker {
         nh.u64(n.flags & (STATUS_FLAGS | DF));
         nh.bytes(self.stub.view(Region::Rw));
         nh.bytes(self.stub.view(Region::Stack));
+        nh.bytes(self.stub.view(Region::Hi));
         if let Some(x) = &n.xmm {
             for v in x {
                 nh.u64(*v as u64);
@@ -479,7 +481,7 @@ impl NatWorker {
                 }
             };
             let nat: &[u8] = match r {
-                Region::Rw | Region::Stack => self.stub.view(*r),
+                Region::Rw | Region::Stack | Region::Hi => self.stub.view(*r),
                 _ => {
                     // cannot change natively; compare with what was loaded
                     self.stub.view(*r)
@@ -538,7 +540,7 @@ impl NatWorker {
                 };
                 let rname = match r {
                     Region::Stack => "stack",
-                    Region::Rw => "data",
+                    Region::Rw | Region::Hi => "data",
                     Region::Ro => "ro",
                     _ => "none",
                 };
